@@ -50,6 +50,39 @@ def seq_idcode(m):
     return a if a == b else "%s then %s" % (a, b)
 
 
+def text_consistency(seed):
+    """FS / DR / IDS / CA descriptions returned next to the numeric codes (pyModeS.common, pyModeS.surv, pyModeS.allcall):
+    the text must depend on the code only, and two different codes that both have a description must not share it.
+    (The wording itself is not part of the property, so it is not pinned.)"""
+    import random
+    import pyModeS
+    rng = random.Random(seed)
+    fns = [("common.fs", pyModeS.common.fs, 5, 3, (4, 5, 20, 21), lambda r: (r[0], r[1])),
+           ("common.dr", pyModeS.common.dr, 8, 5, (4, 5, 20, 21), lambda r: (r[0], r[1])),
+           ("common.um", pyModeS.common.um, 17, 2, (4, 5, 20, 21), lambda r: (r[1], r[2])),
+           ("surv.fs", pyModeS.surv.fs, 5, 3, (4, 5), lambda r: (r[0], r[1])),
+           ("surv.dr", pyModeS.surv.dr, 8, 5, (4, 5), lambda r: (r[0], r[1])),
+           ("surv.um", pyModeS.surv.um, 17, 2, (4, 5), lambda r: (r[1], r[2])),
+           ("allcall.capability", pyModeS.allcall.capability, 5, 3, (11,), lambda r: (r[0], r[1]))]
+    for name, fn, pos, w, dfs, proj in fns:
+        text_of = {}
+        for code in range(1 << w):
+            for _ in range(12):
+                df = rng.choice(dfs)
+                m = hex_of(spec.df_frame(rng, df, 56 if df < 16 else 112, [(pos, w, code)]))
+                got_code, text = proj(fn(m))
+                if got_code != code:
+                    return "%s(%s): code %r, placed %d" % (name, m, got_code, code)
+                if code in text_of and text_of[code] != text:
+                    return "%s: code %d described as %r and as %r depending on other bits (%s)" % (name, code, text_of[code], text, m)
+                text_of[code] = text
+        described = [(c, t) for c, t in text_of.items() if t]
+        if len({t for c, t in described}) != len(described):
+            dup = [c for c, t in described if [t2 for c2, t2 in described].count(t) > 1]
+            return "%s: codes %s share one description" % (name, dup)
+    return "ok"
+
+
 def cases(ctx):
     rng = ctx.rng
     nbg = ctx.n(1, 4)
@@ -92,6 +125,23 @@ def cases(ctx):
                     yield dict(op="surv.fs " + m, real=(P, ["pyModeS.surv.fs", [0], m]), expect=str(fs), tag="fs")
                     yield dict(op="surv.dr " + m, real=(P, ["pyModeS.surv.dr", [0], m]), expect=str(dr), tag="dr")
                     yield dict(op="surv.um " + m, real=(P, ["pyModeS.surv.um", [0, 1], m]), expect="%d|%d" % (iis, ids), tag="um")
+    # pyModeS.common.fs / dr / um (no DF guard; DF4/5/20/21 carry the fields in the same place): values as placed in the frame
+    k = 0
+    for fs in range(8):
+        for dr in range(32):
+            for iis in range(16):
+                for ids in range(4):
+                    k += 1
+                    if k % (step * 3):
+                        continue
+                    df = rng.choice([4, 5, 20, 21])
+                    m = hex_of(spec.df_frame(rng, df, 56 if df < 16 else 112, [(5, 3, fs), (8, 5, dr), (13, 4, iis), (17, 2, ids)]), rng.choice(["upper", "lower"]))
+                    short = df < 16
+                    yield dict(op=("surv.fs " + m) if short else None, real=(P, ["pyModeS.common.fs", [0], m]), expect=str(fs), tag="common.fs")
+                    yield dict(op=("surv.dr " + m) if short else None, real=(P, ["pyModeS.common.dr", [0], m]), expect=str(dr), tag="common.dr")
+                    yield dict(op=("surv.um " + m) if short else None, real=(P, ["pyModeS.common.um", [0, 1], m]), expect="%d|%d" % (iis, ids), tag="common.um")
+    # the descriptive texts: a function of the code alone (whatever the other bits are), and no two described codes share a text
+    yield dict(op=None, real=("h:props.C08.text_consistency", [ctx.seed]), expect="ok", tag="texts")
     for ca in range(8):
         for _ in range(ctx.n(20, 200)):
             m = hex_of(spec.df_frame(rng, 11, 56, [(5, 3, ca)]))
